@@ -220,7 +220,14 @@ type c08lmon struct {
 	lv        int
 	leftSeen  map[int]uint32 // observer idx -> incarnation at which it recorded L left
 	res       bool
+	// observers that declared L failed on their own evidence after L's process had stopped
+	// (Shutdown following the Leave) and before the departure had reached them: they no longer
+	// considered L a member when the news arrived, and the library keeps dead at an equal incarnation
+	goneDead  map[int]bool
+	lastState map[int]NodeStateType
 }
+
+var c08dbg = map[string]string{}
 
 func (m *c08lmon) step(cx *clusterRun) {
 	L := cx.node(m.lv)
@@ -229,6 +236,20 @@ func (m *c08lmon) step(cx *clusterRun) {
 			continue
 		}
 		v := n.view(L.name)
+		if os.Getenv("VERIF_DEBUG") != "" {
+			if s := v.String(); c08dbg[n.name] != s {
+				c08dbg[n.name] = s
+				fmt.Fprintf(os.Stderr, "DEBUG t=%v %s view of %s: %s\n", cx.c.Sim.Now(), n.name, L.name, s)
+			}
+		}
+		if v.Present {
+			if prev, ok := m.lastState[n.idx]; v.State == StateDead && (!ok || prev != StateDead) && !L.running() {
+				if _, knewLeft := m.leftSeen[n.idx]; !knewLeft {
+					m.goneDead[n.idx] = true
+				}
+			}
+			m.lastState[n.idx] = v.State
+		}
 		if inc, ok := m.leftSeen[n.idx]; ok {
 			if v.Present && (v.State == StateAlive || v.State == StateSuspect) && v.Inc <= inc+0 && !m.res {
 				m.res = true
@@ -248,7 +269,7 @@ func (m *c08lmon) finish(cx *clusterRun) {}
 func execC08L(c *Ctx) {
 	p := c.Plan
 	lv := int(p.param("leaver", 0))
-	mon := &c08lmon{lv: lv, leftSeen: map[int]uint32{}}
+	mon := &c08lmon{lv: lv, leftSeen: map[int]uint32{}, goneDead: map[int]bool{}, lastState: map[int]NodeStateType{}}
 	cx := startClusterRun(c, mon, newEventMon(), &healthMon{}, newSelfMon())
 	L := cx.node(lv)
 	// tap: self-signed dead messages sent by L
@@ -323,6 +344,9 @@ func execC08L(c *Ctx) {
 		for i := range listedAtLeave {
 			n := cx.node(i)
 			v := n.view(L.name)
+			if v.Present && v.State == StateDead && mon.goneDead[i] {
+				continue
+			}
 			if !v.Present || v.State != StateLeft {
 				return false
 			}
@@ -379,6 +403,10 @@ func execC08L(c *Ctx) {
 			for i := range listedAtLeave {
 				n := cx.node(i)
 				v := n.view(L.name)
+				if v.Present && v.State == StateDead && mon.goneDead[i] {
+					c.Reach("peer_declared_failure_after_leaver_process_stopped")
+					continue
+				}
 				if (!v.Present || v.State != StateLeft) && v.Inc <= L.leaveInc+8 {
 					c.Violate("leave-not-recorded-as-left", "", n.name, "%s listed %s when it left (incarnation %d); %v after a successful Leave it records it as %s, not left", n.name, L.name, L.leaveInc, c.Sim.Now()-T, v)
 					break
